@@ -195,6 +195,9 @@ pub fn check_c10_c11(prop: &str, case: &Case, plan: &AsyncPlan, order: (usize, u
         if prop != "C11" {
             match &res.outcome {
                 Outcome::Deadlock => acc.violation(viol(label, "deadlock", "solve waits for something that can never complete".into(), case, detail(), order)),
+                // stopped by the wall-clock monitor (machine overloaded, or a genuine hang that the monitor
+                // reports through the abandon path after re-running the case alone): not judged here
+                Outcome::Horizon if crate::sweep::kill_requested() => acc.count("executions_stopped_by_the_monitor"),
                 Outcome::Horizon => acc.violation(viol(label, "livelock", "poll horizon exceeded".into(), case, detail(), order)),
                 Outcome::Panic(p) => acc.violation(viol(label, &format!("panic:{}:{}", p.site, p.msg), format!("async solve panicked at {}: {}", p.site, p.msg), case, detail(), order)),
                 Outcome::Cancelled(_) => acc.violation(viol(label, "spurious-cancel", "Cancelled without request".into(), case, detail(), order)),
@@ -440,6 +443,7 @@ pub fn check_c12_async(case: &Case, plan: &AsyncPlan, order: (usize, u64, u32), 
                     }
                 }
                 match res.outcome {
+                    Outcome::Horizon if crate::sweep::kill_requested() => acc.count("executions_stopped_by_the_monitor"),
                     Outcome::Deadlock | Outcome::Horizon => acc.violation(viol(
                         "C12",
                         "deadlock-on-cancel",
@@ -741,6 +745,7 @@ pub fn check_c13_async(case: &Case, plan: &AsyncPlan, order: (usize, u64, u32), 
                         }
                     }
                     (Outcome::Unsat, Outcome::Unsat) => {}
+                    (Outcome::Horizon, _) if crate::sweep::kill_requested() => acc.count("executions_stopped_by_the_monitor"),
                     (Outcome::Deadlock, _) | (Outcome::Horizon, _) => acc.violation(viol(
                         "C13",
                         "deadlock-after-cancel",
